@@ -28,7 +28,14 @@ type Ref struct {
 	MaxSteps int
 	steps    int
 	order    [][]int
+	// Grey: a typed terminal met a spelling the documented syntax is silent about: nothing may be claimed for this case
+	Grey bool
 }
+
+// LitOracle decides what the typed terminal of the given kind (gram.LitKinds) reads at in[pos:]: verdict 1 = a literal
+// ending at end with that value, 0 = nothing, 2 = grey. It is set by the checks package (the byte-level scanners of
+// C08, written from the documented syntax, independent of the library).
+var LitOracle func(kind int, in string, pos int) (end int, value interface{}, verdict int)
 
 func addRes(rs []Res, r Res) []Res {
 	for _, x := range rs {
@@ -87,6 +94,30 @@ func (rf *Ref) Eval(e *gram.Expr, pos int) []Res {
 			}
 		}
 		return nil
+	case gram.OpLit:
+		// a typed terminal: what it reads at pos is decided by the independent byte-level scanners (LitOracle)
+		if LitOracle == nil {
+			rf.Grey = true
+			return nil
+		}
+		end, val, verdict := LitOracle(int(e.C), rf.In, pos)
+		if verdict == 2 {
+			rf.Grey = true // the documented syntax is silent about this spelling: nothing is claimed for the case
+			return nil
+		}
+		if verdict != 1 {
+			return nil
+		}
+		t := ""
+		if !rf.EndsOnly {
+			k := gram.LitKinds[e.C]
+			if k.Typed {
+				t = fmt.Sprintf("%s{%v}@%d-%d", k.Token, val, pos, end)
+			} else {
+				t = fmt.Sprintf("%s@%d-%d", k.Token, pos, end)
+			}
+		}
+		return []Res{{t, end}}
 	case gram.OpMark:
 		t := ""
 		if !rf.EndsOnly {
